@@ -506,10 +506,17 @@ impl<R: DdsRuntime> DcpsParticipantFactory<R> {
                 publisher_handle,
                 qos,
                 reply_sender,
-            }) => reply_sender.send(
-                self.find_participant(&participant_handle)
-                    .and_then(|p| p.set_publisher_qos(&publisher_handle, qos)),
-            ),
+            }) => match self
+                .domain_participant_list
+                .iter_mut()
+                .find(|x| x.get_instance_handle() == &participant_handle)
+                .ok_or(DdsError::AlreadyDeleted)
+            {
+                Ok(p) => {
+                    reply_sender.send(p.set_publisher_qos(&publisher_handle, qos, &self.runtime))
+                }
+                Err(e) => reply_sender.send(Err(e)),
+            },
             DcpsMail::Publisher(PublisherServiceMail::SetPublisherListener {
                 participant_handle,
                 publisher_handle,
@@ -829,10 +836,17 @@ impl<R: DdsRuntime> DcpsParticipantFactory<R> {
                 subscriber_handle,
                 qos,
                 reply_sender,
-            }) => reply_sender.send(
-                self.find_participant(&participant_handle)
-                    .and_then(|p| p.set_subscriber_qos(&subscriber_handle, qos)),
-            ),
+            }) => match self
+                .domain_participant_list
+                .iter_mut()
+                .find(|x| x.get_instance_handle() == &participant_handle)
+                .ok_or(DdsError::AlreadyDeleted)
+            {
+                Ok(p) => {
+                    reply_sender.send(p.set_subscriber_qos(&subscriber_handle, qos, &self.runtime))
+                }
+                Err(e) => reply_sender.send(Err(e)),
+            },
             DcpsMail::Subscriber(SubscriberServiceMail::GetSubscriberQos {
                 participant_handle,
                 subscriber_handle,
